@@ -225,7 +225,7 @@ func (a frac) eq(b frac) bool   { return a.n*b.d == b.n*a.d }
 
 func smallHalfInt(v float64) (int64, bool) {
 	w := v * 2
-	if w != math.Trunc(w) || math.Abs(w) > 1<<21 {
+	if w != math.Trunc(w) || math.Abs(w) > 1<<27 {
 		return 0, false
 	}
 	return int64(w), true
